@@ -21,7 +21,7 @@ RULE = ("Names over the HTTP token alphabet; values: every code point 0-255 alon
         "order with random OWS; expires in {0,1,59,3600,400 days,-3600}, max_age in {-1,0,1,10^9}; process time zones UTC, Asia/Shanghai, "
         "America/New_York, Europe/Berlin, Australia/Lord_Howe, Pacific/Kiritimati, Etc/GMT+12 (tzset in-process). Non-trivial = value that is not a "
         "bare token, or an expiry attribute under a non-UTC zone; distinct = (name, value, position, zone).")
-RULE += ' Also: percent-shaped values, set_cookie followed by delete_cookie on the same response (the last line for the name decides). The response carrying the cookies also answers from behind @middleware and @request_response; the cookie mapping is also read as a whole (items, dict(), values, ==, [name] for every name). Cookies read from a copy of the environ / scope that a layer in front has given another Cookie header after reading the original; a response object sent once, its queued cookies then assigned their values directly, and sent again.'
+RULE += ' Also: percent-shaped values, set_cookie followed by delete_cookie on the same response (the last line for the name decides). The response carrying the cookies also answers from behind @middleware and @request_response; the cookie mapping is also read as a whole (items, dict(), values, ==, [name] for every name). Cookies read from a copy of the environ / scope that a layer in front has given another Cookie header after reading the original; a response object sent once, its queued cookies then assigned their values directly, and sent again. Lifetimes that end on 1-3 January, 29-31 December and 29 February of the next twelve years.'
 ASSUMPTIONS = [
     "the client echoes the name=value pair exactly as it appeared before the first ';' of the Set-Cookie line",
     "Expires is judged by containment in [floor(t0+s), floor(t1+s)] with t0/t1 read around the call (never a deadline)",
